@@ -73,6 +73,8 @@ def gen(seed):
     count = [None, 0, 1, 3, 100][int(rng.integers(0, 5))]
     req = [[], [int(ids[0])], ids.tolist(), ids[::-1].tolist() + [77], [77],
            ids.tolist() + [int(ids[0])], [int(ids[-1]), 77, int(ids[-1])]][int(rng.integers(0, 7))]      # also ids named twice
+    if seed[2] % 7 == 3:
+        req = [int(ids[0]), int(ids[0])] + ids[1:].tolist()           # a cluster named twice BEFORE the others
     subset_chunks = bool(rng.integers(0, 2))
     subset_spikes = None
     if rng.random() < 0.4:
